@@ -233,6 +233,8 @@ Inductive read_site :=
 | RdMembership        (* a directory listing used only for a membership / emptiness test *)
 | RdPpRunProgram      (* _postprocessors.py ExternalProgramEditInPlace: sys.executable to run the user's --pp-run-program script; that
                          program is an input of the run and may do anything: outside the property *)
+| RdFrontEndInput     (* a path passed to pydsdl.read_files / read_namespace: where the inputs are; the parser opens the files, the
+                         objects it returns carry source_file_path, which is tracked as a read of its own *)
 | RdAsciiPackagedText (* read_text() without encoding= of packaged *.yaml files that are pure ASCII (checked at scan time) *)
 | RdIncludeResolve    (* jinja/__init__.py filter_type_to_include_path under `if resolve:`; template-visible: KAbsSrc site *)
 | RdPlatform          (* jinja/environment.py _create_platform_version (sf_platform_gated) *)
